@@ -25,6 +25,7 @@ typedef struct wstate {
     int cur_n;                   /* choices of the case being executed */
     uint32_t cur_val[CS_MAX];
     uint64_t evals, nontriv, viols, skipped, gen_total;
+    uint64_t fuzz_done;          /* libFuzzer executions so far (phase 2), survives worker restarts */
     int enum_complete;
     int nlab;
     struct { const char *p; char name[136]; uint64_t count; } lab[MAXLAB];
@@ -43,6 +44,8 @@ static long NCASES = -1;
 static long ENUM_LIMIT = 200000000L;
 static void *KASE;
 static int g_use_kase, g_no_kase;
+static long FUZZ_RUNS = 0;        /* total libFuzzer executions (phase 2), split over the workers */
+static const char *FUZZ_DIR = NULL;
 
 static void lab_add(wstate_t *s, const char *l, int dynamic) {
     int i;
@@ -207,6 +210,84 @@ static void exec_case(wstate_t *s, cs_t *cs, uint64_t idx, int vfd) {
     account(s, &r, cs, idx, vfd);
 }
 
+#ifdef CS_LIBFUZZER
+/* phase 2: coverage-guided generation. libFuzzer mutates byte strings, the bytes are the choice sequence
+ * (CS_FUZZ), the decoded case goes through the same exec/accounting path as the random and enum drivers. */
+extern int LLVMFuzzerRunDriver(int *argc, char ***argv, int (*cb)(const uint8_t *, size_t));
+const char *__asan_default_options(void);
+const char *__asan_default_options(void) {
+    return "handle_segv=0:handle_sigbus=0:handle_abort=0:handle_sigill=0:handle_sigfpe=0:abort_on_error=1:"
+           "detect_leaks=0:allocator_may_return_null=1:detect_stack_use_after_return=0:symbolize=1";
+}
+static wstate_t *FZ_S;
+static int FZ_VFD;
+static long FZ_BUDGET;
+static int fz_cb(const uint8_t *data, size_t size) {
+    static cs_t cs;
+    int valid;
+    if ((long)FZ_S->fuzz_done >= FZ_BUDGET) _exit(0); /* budget reached (also after restarts) */
+    FZ_S->fuzz_done++;
+    cs_begin(&cs, CS_FUZZ, 0, 0);
+    cs.fz = data; cs.fz_n = size; cs.fz_i = 0;
+    CFG.phase = 1;
+    memset(KASE, 0, M->case_size);
+    valid = M->gen(&cs, KASE, &CFG);
+    if (!valid || cs.overflow) { FZ_S->skipped++; return 0; }
+    exec_case(FZ_S, &cs, FZ_S->fuzz_done, FZ_VFD);
+    return 0;
+}
+static void fz_seed_corpus(int w, const char *dir) {
+    /* a few random cases in byte form, so that the first units already decode to complete cases */
+    cs_t cs;
+    int k, i;
+    memset(&cs, 0, sizeof cs);
+    for (k = 0; k < 24; k++) {
+        unsigned char buf[CS_MAX * 2];
+        size_t n = 0;
+        char path[600];
+        FILE *f;
+        cs_begin(&cs, CS_RANDOM, CFG.seed, (uint64_t)(1000003 * w + k));
+        CFG.phase = 1;
+        memset(KASE, 0, M->case_size);
+        if (!M->gen(&cs, KASE, &CFG)) continue;
+        for (i = 0; i < cs.n; i++) {
+            if (cs.radix[i] == 0 || cs.radix[i] > 256) { buf[n++] = (unsigned char)(cs.val[i] >> 8); buf[n++] = (unsigned char)cs.val[i]; }
+            else buf[n++] = (unsigned char)cs.val[i];
+        }
+        snprintf(path, sizeof path, "%s/seed-%d-%d", dir, w, k);
+        f = fopen(path, "wb");
+        if (f) { fwrite(buf, 1, n, f); fclose(f); }
+    }
+}
+static void fuzz_phase(int w, int vfd) {
+    static char a_runs[48], a_seed[48], dir[512];
+    static char *argv_[24];
+    char **argv = argv_;
+    int argc = 0;
+    wstate_t *s = W[w];
+    FZ_S = s; FZ_VFD = vfd;
+    FZ_BUDGET = FUZZ_RUNS / NW + 1;
+    if ((long)s->fuzz_done >= FZ_BUDGET) _exit(0);
+    snprintf(dir, sizeof dir, "%s/corpus.%d", FUZZ_DIR ? FUZZ_DIR : OUTDIR, w);
+    mkdir(dir, 0755);
+    if (s->fuzz_done == 0) fz_seed_corpus(w, dir);
+    snprintf(a_runs, sizeof a_runs, "-runs=%ld", FZ_BUDGET - (long)s->fuzz_done + 64);
+    snprintf(a_seed, sizeof a_seed, "-seed=%llu", (unsigned long long)(CFG.seed * 131 + (uint64_t)w + 1 + s->fuzz_done));
+    argv[argc++] = (char *)"fuzz";
+    argv[argc++] = a_runs; argv[argc++] = a_seed;
+    argv[argc++] = (char *)"-max_len=700"; argv[argc++] = (char *)"-len_control=0";
+    argv[argc++] = (char *)"-handle_segv=0"; argv[argc++] = (char *)"-handle_bus=0"; argv[argc++] = (char *)"-handle_abrt=0";
+    argv[argc++] = (char *)"-handle_ill=0"; argv[argc++] = (char *)"-handle_fpe=0"; argv[argc++] = (char *)"-handle_int=0";
+    argv[argc++] = (char *)"-handle_term=0"; argv[argc++] = (char *)"-handle_xfsz=0"; argv[argc++] = (char *)"-handle_usr1=0"; argv[argc++] = (char *)"-handle_usr2=0";
+    argv[argc++] = (char *)"-verbosity=0"; argv[argc++] = (char *)"-print_final_stats=0"; argv[argc++] = (char *)"-timeout=120";
+    argv[argc++] = (char *)"-rss_limit_mb=0"; argv[argc++] = (char *)"-close_fd_mask=0";
+    argv[argc++] = dir;
+    argv[argc] = NULL;
+    LLVMFuzzerRunDriver(&argc, &argv, fz_cb);
+    _exit(0);
+}
+#endif
+
 static void worker(int w, int vfd) {
     wstate_t *s = W[w];
     cs_t cs;
@@ -218,6 +299,7 @@ static void worker(int w, int vfd) {
     for (;;) {
         int phase = s->phase;
         if (phase > 1) break;
+        if (FUZZ_RUNS > 0 && !getenv("VERIF_FUZZ_WITH_RANDOM")) { s->phase = 2; break; } /* a fuzz campaign runs phase 2 only */
         if ((phase == 0 && !M->has_enum) || (phase == 1 && NCASES == 0)) {
             s->phase = phase + 1; s->next_idx = 0; s->n_in = 0; continue;
         }
@@ -255,6 +337,9 @@ static void worker(int w, int vfd) {
             s->phase = 2;
         }
     }
+#ifdef CS_LIBFUZZER
+    if (FUZZ_RUNS > 0 && s->phase == 2) fuzz_phase(w, vfd);
+#endif
     _exit(0);
 }
 
@@ -333,6 +418,10 @@ static int do_campaign(void) {
             }
             s->in_exec = 0;
             fflush(NULL);
+            if (s->phase == 2) { /* fuzz phase: bound the number of restarts of one worker */
+                static int respawns[MAXW];
+                if (++respawns[w] > 3000) continue;
+            }
             pid[w] = fork();
             if (pid[w] == 0) worker(w, vfd[w]);
             alive++;
@@ -553,6 +642,8 @@ int main(int argc, char **argv) {
         else if (!strcmp(argv[i], "--shrink-out") && i + 1 < argc) shrink_out = argv[++i];
         else if (!strcmp(argv[i], "--write-case") && i + 1 < argc) writecase = argv[++i];
         else if (!strcmp(argv[i], "--no-kase")) g_no_kase = 1;
+        else if (!strcmp(argv[i], "--fuzz-runs") && i + 1 < argc) FUZZ_RUNS = atol(argv[++i]);
+        else if (!strcmp(argv[i], "--fuzz-dir") && i + 1 < argc) FUZZ_DIR = argv[++i];
         else if (!strcmp(argv[i], "--upgrade") && i + 1 < argc) upgrade = argv[++i];
         else if (!strcmp(argv[i], "--list")) return do_list();
         else { fprintf(stderr, "unknown arg %s\n", argv[i]); return 2; }
